@@ -159,19 +159,6 @@ func diff(v0, v1 any, one bool, ignores ...Path) (diffs []Path) {
 			diffs = append(diffs, Path{nil})
 			break
 		}
-		var childIgnores []Path
-		ii := -1
-		for _, ign := range ignores {
-			if 1 < len(ign) {
-				switch ti := ign[0].(type) {
-				case nil:
-					childIgnores = append(childIgnores, ign[1:])
-				case int:
-					ii = ti
-					childIgnores = append(childIgnores, ign[1:])
-				}
-			}
-		}
 		for i, m1 := range t0 {
 			if ignoreIndex(i, ignores) {
 				continue
@@ -180,13 +167,20 @@ func diff(v0, v1 any, one bool, ignores ...Path) (diffs []Path) {
 				diffs = append(diffs, Path{i})
 				return
 			}
-			var ds []Path
-			if ii == i || ii < 0 {
-				ds = diff(m1, t1[i], one, childIgnores...)
-			} else {
-				ds = diff(m1, t1[i], one)
+			var childIgnores []Path
+			for _, ign := range ignores {
+				if 1 < len(ign) {
+					switch ti := ign[0].(type) {
+					case nil:
+						childIgnores = append(childIgnores, ign[1:])
+					case int:
+						if i == ti {
+							childIgnores = append(childIgnores, ign[1:])
+						}
+					}
+				}
 			}
-			for _, d := range ds {
+			for _, d := range diff(m1, t1[i], one, childIgnores...) {
 				if len(d) == 1 && d[0] == nil {
 					d[0] = i
 				} else {
@@ -198,8 +192,11 @@ func diff(v0, v1 any, one bool, ignores ...Path) (diffs []Path) {
 				}
 			}
 		}
-		if len(t0) != len(t1) && !ignoreIndex(len(t0), ignores) {
-			diffs = append(diffs, Path{len(t0)})
+		for i := len(t0); i < len(t1); i++ {
+			if !ignoreIndex(i, ignores) {
+				diffs = append(diffs, Path{i})
+				break
+			}
 		}
 	case map[string]any:
 		t1, ok := v1.(map[string]any)
